@@ -1437,6 +1437,74 @@ theorem C18_accept_wf (ctx : Ctx) (req : Req) (e : Effect)
                 refine ⟨⟨⟨⟨by omega, by decide⟩, ?_⟩, by decide⟩, hlim.2⟩
                 exact (viol_r 1 75 _).mpr hlim
 
+/-! ## what is not executed decides nothing; what is executed cannot be masked -/
+
+/-- **C18_search_dormant.** `ValidateSchema` and the set of vectors that reach a distance closure depend
+on the EXECUTED part of a query only (`Query.live`: for `_and` / `_or` the list of that name; for a
+property with an index the options of the index's type and their filter): an `_and` list on an `_or`
+node, option blocks of other types, lists on a leaf — however ill-fitting — change neither. -/
+theorem C18_search_dormant (schema : Schema) (q : Query) :
+    (q.live schema).validSchema schema = q.validSchema schema ∧ (q.live schema).reach schema = q.reach schema :=
+  ⟨live_validSchema schema q, live_reach schema q⟩
+
+/-- consequently the v2 search handler answers two requests alike when their queries have the same
+executed part and both pass (or both fail) the schema-independent `Validate` -/
+theorem C18_search_status_live (sp : Spec) (en : Enums) (ctx : Ctx) (c : ColCtx) (hc : ctx.col = some c) (r1 r2 : SearchReq)
+    (hl : r1.query.live c.schema = r2.query.live c.schema) (hv : r1.valid sp en = r2.valid sp en) :
+    (handle sp en ctx (.v2Search (some r1))).status = (handle sp en ctx (.v2Search (some r2))).status := by
+  have hvs : r1.query.validSchema c.schema = r2.query.validSchema c.schema := by
+    rw [← live_validSchema c.schema r1.query, ← live_validSchema c.schema r2.query, hl]
+  simp only [handle, v2Search, withCol, hc]
+  split
+  · rfl
+  · simp only [Bool.false_and, Bool.false_eq_true, if_false, hv]
+    split
+    · rfl
+    · rw [hvs]
+      cases r2.query.validSchema c.schema <;> rfl
+
+/-- **C18_wrong_length_refused** (the contrapositive of `C18_vec_len_search`, spelled out): if anywhere in
+the executed part of a v2 search — top level, inside `_and` / `_or`, inside the filter of a vector or
+text leaf, at any depth, whatever valid filters, weights, dormant lists and blocks stand beside it — a
+vector's length differs from the dimension of the index it would be run on, nothing is handed to the
+cluster layer. -/
+theorem C18_wrong_length_refused (sp : Spec) (en : Enums) (ctx : Ctx) (c : ColCtx) (hc : ctx.col = some c) (r : SearchReq)
+    (x : Reach) (hx : x ∈ r.query.reach c.schema) (hne : (x.len : Int) ≠ x.dim) :
+    (handle sp en ctx (.v2Search (some r))).eff = none := by
+  simp only [handle, v2Search, withCol, hc]
+  split
+  · rfl
+  · simp only [Bool.false_and, Bool.false_eq_true, if_false]
+    split
+    · rfl
+    · cases hvs : r.query.validSchema c.schema with
+      | bad => rfl
+      | panic => rfl
+      | ok => exact absurd (reach_ok c.schema r.query hvs x hx) hne
+
+/-- **C18_v1_by_type.** The v1 endpoints of a collection go by the declared TYPE of the `vector` entry: if it
+is not `vectorVamana` — whatever parameter blocks the entry carries, a vamana block included — every v1
+request addressing the collection is answered 400 and nothing is handed on. -/
+theorem C18_v1_by_type (sp : Spec) (en : Enums) (ctx : Ctx) (c : ColCtx) (hc : ctx.col = some c) (sv : SchemaValue)
+    (hl : lookup c.schema kVector = some sv) (ht : sv.type ≠ tVectorVamana) (req : Req)
+    (hreq : match req with | .v1Get | .v1DeleteCol | .v1Insert _ | .v1Update _ | .v1Delete _ | .v1Search _ => True | _ => False) :
+    (handle sp en ctx req).status = 400 ∧ (handle sp en ctx req).eff = none := by
+  have hv : isV1Collection c.schema = false := by simp [isV1Collection, hl, ht]
+  have wc : ∀ rng (k : ColCtx → Outcome), (withCol rng true ctx k).status = 400 ∧ (withCol rng true ctx k).eff = none := by
+    intro rng k
+    unfold withCol
+    split
+    · simp [reject]
+    · simp [hc, hv, reject]
+  cases req with
+  | v1Get => exact wc _ _
+  | v1DeleteCol => exact wc _ _
+  | v1Insert b => exact wc _ _
+  | v1Update b => exact wc _ _
+  | v1Delete b => exact wc _ _
+  | v1Search b => exact wc _ _
+  | _ => exact absurd hreq (by simp)
+
 /-! ## non-vacuity: the hypotheses of the theorems are satisfiable on concrete states
 (kept small: `decide` evaluates the model in the kernel without sharing) -/
 
@@ -1473,6 +1541,22 @@ example : (handle Spec.documented Enums.documented exCtx (.v2Search (some (exSea
 example : exSchema2.valid Spec.documented Enums.documented = true := by decide
 -- v1 on a collection without the v1 index: refused with 400 (pinned tree: nil dereference)
 example : (handle Spec.documented Enums.documented exCtx (.v1Search (some ⟨[0, 0], 5⟩))).status = 400 := by decide
+-- C18_search_dormant: an `_or` node whose dormant `_and` list holds a vector of the wrong length is accepted like its
+-- executed part alone; the same leaf in the executed list is refused whatever valid `_and` list stands beside it
+def exLeaf (n : Nat) : Query := .mk (S "vec") (some ⟨List.replicate n 0, S "near", 0, 5, none⟩) none none none none none none none none none [] []
+def exOr (live dormant : Nat) : Query := .mk pOr none none none none none none none none none none [exLeaf dormant] [exLeaf live]
+example : (exOr 2 3).validSchema exSchema = .ok ∧ (exOr 3 2).validSchema exSchema = .bad ∧
+    ((exOr 2 3).live exSchema).and.length = 0 ∧ ((exOr 2 3).live exSchema).or.length = 1 := by decide
+-- C18_wrong_length_refused: a wrong-length leaf that carries a valid filter of its own, inside the filter of a well-formed leaf
+def exFiltered (outer inner : Nat) : Query :=
+  .mk (S "vec") (some ⟨List.replicate outer 0, S "near", 0, 5, none⟩) none none none none none none
+    (some (.mk (S "vec") (some ⟨List.replicate inner 0, S "near", 0, 5, none⟩) none none none none none none (some (exLeaf 2)) none none [] [])) none none [] []
+example : ((exFiltered 2 3).reach exSchema).map (fun x => (x.dim, x.len)) = [(2, 2), (2, 3), (2, 2)] ∧ (exFiltered 2 3).validSchema exSchema = .bad ∧ (exFiltered 2 2).validSchema exSchema = .ok := by decide
+-- C18_v1_by_type: `vector` declared as a flat index with a vamana block beside it (accepted by IndexSchema.Validate)
+def exStray : Schema :=
+  [(kVector, { type := tVectorFlat, flat := some ⟨3, S "euclidean", none⟩, vamana := some ⟨3, S "euclidean", 75, 64, 0x3FF3333340000000, none⟩, text := none, string := none, stringArray := none })]
+example : exStray.valid Spec.documented Enums.documented = true ∧ isV1Collection exStray = false ∧
+    (handle Spec.documented Enums.documented { exCtx with col := some ⟨exStray, 0⟩ } (.v1Search (some ⟨[0, 0, 0], 5⟩))).status = 400 := by decide
 -- C18_vec_len_stored, hypothesis `hm`: one new key, nothing deleted
 example : ∀ k, lookup [(S "note", J.null)] k = mergeLookup [] [(S "note", J.null)] k := by
   intro k
